@@ -216,4 +216,122 @@ theorem render_le (inl : Mode) (files : Files) {f g : Nat} (h : f ≤ g) : JLe (
     · exact .inl h1
     · rw [h1]; exact render_le_succ inl files _ rng ns st
 
+/-! ## run-time mode never touches the cache of prepared templates -/
+
+def KC (x : R) (c : Cache) : Prop := ∀ r, x = .ok r → r.2.cache = c
+
+theorem KC.bind {x : R} {k : List Ev × St → R} {c : Cache} (hx : KC x c)
+    (hk : ∀ a, a.2.cache = c → KC (k a) c) : KC (x.bind k) c := by
+  cases x with
+  | fuel => intro r h; simp at h
+  | err e => intro r h; simp at h
+  | ok a => exact hk a (hx a rfl)
+
+theorem KC.ok {o : List Ev} {s : St} {c : Cache} (h : s.cache = c) : KC (.ok (o, s)) c := by
+  intro r hr; cases hr; exact h
+
+theorem KC.err {e : Err} {c : Cache} : KC (.err e) c := by intro r h; simp at h
+theorem KC.fuel {c : Cache} : KC .fuel c := by intro r h; simp at h
+
+theorem loopItems_kc {k : St → R} (x : Name) {c : Cache} (hk : ∀ s, s.cache = c → KC (k s) c) :
+    ∀ (vs : List Value) (s : St), s.cache = c → KC (loopItems k x vs s) c
+  | [], s, hs => KC.ok hs
+  | v :: vs, s, hs => by
+    simp only [loopItems]
+    refine KC.bind (hk _ hs) fun r1 h1 => ?_
+    refine KC.bind (loopItems_kc x hk vs _ h1) fun r2 h2 => ?_
+    exact KC.ok h2
+
+mutual
+theorem renderN_kc (files : Files) {J : RJ} (hJ : ∀ rng ns st, KC (J rng ns st) st.cache) :
+    ∀ (n : Node) (rng : Rng) (st : St), KC (renderN .runtime files J rng n st) st.cache
+  | .text _, _, _ => KC.ok rfl
+  | .var x, rng, st => by
+    rw [renderN_var]
+    cases st.lookup x with
+    | none => exact KC.err
+    | some v =>
+      dsimp only
+      cases v.text? with
+      | none => exact KC.err
+      | some s => exact KC.ok rfl
+  | .elem tag body, rng, st => by
+    rw [renderN_elem]
+    cases firstMatch st.mts rng tag with
+    | none => exact KC.bind (renderL_kc files hJ body rng st) fun r hr => KC.ok hr
+    | some p =>
+      obtain ⟨idx, mb⟩ := p
+      exact KC.bind (renderL_kc files hJ body _ st) fun r hr => hr ▸ hJ _ mb r.2
+  | .cond c body, rng, st => by
+    rw [renderN_cond]
+    cases evalCond st c with
+    | fuel => exact KC.fuel
+    | err e => exact KC.err
+    | ok b =>
+      cases b with
+      | true => exact renderL_kc files hJ body rng st
+      | false => exact KC.ok rfl
+  | .loop x xs body, rng, st => by
+    rw [renderN_loop]
+    cases st.lookup xs with
+    | none => exact KC.err
+    | some v => exact loopItems_kc x (fun s hs => hs ▸ renderL_kc files hJ body rng s) _ st rfl
+  | .defn _ _, _, _ => KC.ok rfl
+  | .call m, rng, st => by
+    rw [renderN_call]
+    cases st.macros.lookup m with
+    | some body => exact hJ _ _ _
+    | none => cases st.lookup m <;> exact KC.err
+  | .matchT _ _, _, _ => KC.ok rfl
+  | .include href cls hasFb fb pos, rng, st => by
+    rw [renderN_include]
+    cases evalHref st href with
+    | fuel => exact KC.fuel
+    | err e => exact KC.err
+    | ok h =>
+      simp only [Res.bind_ok]
+      cases resolve pos h with
+      | none => exact KC.err
+      | some name =>
+        simp only [loadT]
+        cases loadRaw files name cls with
+        | fuel => exact KC.fuel
+        | ok body => exact hJ _ _ _
+        | err e =>
+          cases e with
+          | notFound =>
+            cases hasFb with
+            | true => exact renderL_kc files hJ fb .full st
+            | false => exact KC.err
+          | syntaxErr => exact KC.err
+          | undefined => exact KC.err
+          | unmodelled => exact KC.err
+  | .inlined body, rng, st => by rw [renderN_inlined]; exact hJ _ _ _
+termination_by structural n => n
+theorem renderL_kc (files : Files) {J : RJ} (hJ : ∀ rng ns st, KC (J rng ns st) st.cache) :
+    ∀ (ns : List Node) (rng : Rng) (st : St), KC (renderL .runtime files J rng ns st) st.cache
+  | [], _, _ => KC.ok rfl
+  | n :: ns, rng, st => by
+    rw [renderL_cons]
+    refine KC.bind (renderN_kc files hJ n rng st) fun r1 h1 => ?_
+    refine KC.bind (h1 ▸ renderL_kc files hJ ns rng r1.2) fun r2 h2 => ?_
+    exact KC.ok h2
+termination_by structural ns => ns
+end
+
+theorem render_kc (files : Files) : ∀ (f : Nat) (rng : Rng) (ns : List Node) (st : St),
+    KC (render .runtime files f rng ns st) st.cache
+  | 0, _, _, _ => KC.fuel
+  | f + 1, rng, ns, st => by rw [render_succ]; exact renderL_kc files (render_kc files f) ns rng st
+
+theorem render_keeps_cache_runtime (files : Files) (fuel : Nat) (rng : Rng) (ns : List Node) (st : St) :
+    match renderL .runtime files (render .runtime files fuel) rng ns st with
+    | .ok r => r.2.cache = st.cache
+    | _ => True := by
+  have := renderL_kc files (render_kc files fuel) ns rng st
+  cases h : renderL .runtime files (render .runtime files fuel) rng ns st with
+  | fuel => trivial
+  | err e => trivial
+  | ok r => exact this r h
+
 end Genshi.Incl
